@@ -21,7 +21,8 @@ ASSUMPTIONS = [
     "`char` is signed (x86-64 Linux ABI): bytes >= 0x80 pass the decoder's name-character tests",
     "String append/assign/compare and Map<String,String> ordering (strcmp) behave as byte lists and a sorted association list "
     "(properties C03, C02); Array/Stack push, pop, index within bounds behave as lists",
-    "reference counting of Xml nodes (NodeBase rc) frees every node exactly once: observed by ASan/LSan on every run, not modelled",
+    "reference counting of Xml nodes (NodeBase rc) frees every node exactly once, and tearing a tree down needs bounded call-stack "
+    "(iterative ~_Xml since fix dede87b): observed by ASan/LSan on every run incl. documents nested 300000 levels, not modelled",
 ]
 TECHNIQUE = ("Lean 4 theorems (invariants over the decoder state machine, structural induction over element trees) about an "
              "executable transcription of Xml::decode / XmlCodec::encode + differential correspondence check under ASan")
@@ -303,7 +304,7 @@ def gen(rng, tier):
     quick = tier == "quick"
     cases = []
     # 1. generated documents + their mutations
-    for i in range(500 if quick else 12000):
+    for i in range(500 if quick else 25000):
         d = rdoc(rng, plain=(rng.random() < 0.8))
         c = [dec(d)]
         m = d
@@ -318,13 +319,13 @@ def gen(rng, tier):
             d = d[:400]
         cases.append([dec(d[:k]) for k in range(0, len(d) + 1)])
     # 3. token soups
-    for i in range(400 if quick else 10000):
+    for i in range(400 if quick else 20000):
         c = []
         for _ in range(8):
             c.append(dec(b"".join(rng.choice(TOKS) for _ in range(rng.randrange(1, 14)))))
         cases.append(c)
     # 4. random bytes (uniform, and over a markup alphabet)
-    for i in range(200 if quick else 5000):
+    for i in range(200 if quick else 10000):
         c = []
         for _ in range(8):
             n = rng.randrange(0, 40)
@@ -375,8 +376,10 @@ def gen(rng, tier):
                     batch = []
         if batch:
             cases.append(batch)
-    # 7. DOM trees: encode and decode(encode)
-    for i in range(500 if quick else 12000):
+    # 7. DOM trees: encode and decode(encode)  (returned first: a broken round trip is then among the first failures judged)
+    other = cases
+    cases = []
+    for i in range(500 if quick else 25000):
         depth = rng.choice([0, 1, 2, 3, 4, 5, 8, 11])
         sole = rng.random() < 0.5
         t = rtree(rng, depth, sole, plain=(rng.random() < 0.5), fan=3 if depth > 4 else 4)
@@ -400,6 +403,7 @@ def gen(rng, tier):
         tk = " ".join(tokens(t))
         cases.append(["enc 0 " + tk, "rt 0 " + tk, "rt 1 " + tk])
     cases.append(["enc 0 T 6162", "rt 0 T 6162", "enc 1 T 26", "rt 1 T 26", "enc 0 E - 0 0", "rt 0 E - 0 0"])
+    cases = cases + other
     # 8. deeply nested documents built inside the harness / driver (kind 0: closed, 1: closed then a mismatched end tag so that
     #    the tree is destroyed inside decode, 2: unclosed)
     for n in ([0, 1, 2, 12, 13, 1000, 300000] if quick else [0, 1, 2, 12, 13, 1000, 50000, 300000, 1000000]):
@@ -562,8 +566,9 @@ def ref_dec(data):
     def edoctype():
         s = st["doctype"]
         e = p.CurrentByteIndex
-        if s is None or b'"' in data[s:e] or b"'" in data[s:e]:
-            st["bad"] = True   # a quoted '>' would confuse asl's bracket counting; keep the oracle out of it
+        if s is None or b'"' in data[s:e] or b"'" in data[s:e] or b"<!--" in data[s:e] or b"<?" in data[s:e]:
+            st["bad"] = True   # a '<' or '>' inside a literal, comment or PI of the internal subset confuses asl's bracket
+                               # counting (outside the property): keep the oracle out of it
 
     def cdata():
         st["bad"] = True
@@ -628,6 +633,26 @@ def oracle(case, impl, model, crash):
 def simplify_line(line):
     """byte-level shrinking candidates for one op line (largest cuts first)"""
     t = line.split()
+    if t[0] in ("rt", "enc") and len(t) > 3:
+        try:
+            tr, n = parse_tokens(t, 2)
+        except Exception:
+            return
+        if tr[0] != "E":
+            return
+
+        def subtrees(x):
+            for c in x[3]:
+                if c[0] == "E":
+                    yield c
+                    for y in subtrees(c):
+                        yield y
+        cands = sorted(subtrees(tr), key=lambda x: len(tokens(x)))[:40]
+        cands += [("E", tr[1], [], tr[3]), ("E", b"a", tr[2], tr[3])]
+        cands += [("E", tr[1], tr[2], tr[3][:i] + tr[3][i + 1:]) for i in range(len(tr[3]))][:20]
+        for c in cands:
+            yield "%s %s %s" % (t[0], t[1], " ".join(tokens(c)))
+        return
     if t[0] != "dec" or len(t) != 2:
         return
     b = unhex(t[1])
@@ -687,5 +712,6 @@ LEVEL_NOTE = ("Trusted: Lean kernel; the reading that produced the transcription
               "The DOM is modelled as a tree whose nodes carry an object identity and an explicit parent field (no shared sub-objects); that "
               "the real decoder never shares a node between two parents, and that reference counting frees each node once, is observed by "
               "K/ASan/LSan, not proved. Memory safety of the C++ beyond the modelled stack/buffer accesses (String growth, Array realloc) "
-              "is checked by the sanitizers on the explored inputs only. Round-trip theorems cover names in the decoder's accepted class "
+              "and of tree destruction (recursive before fix dede87b: stack overflow at ~10^5 nesting levels) is checked by the sanitizers on the "
+              "explored inputs only. Round-trip theorems cover names in the decoder's accepted class "
               "(a superset of XML names), NUL-free strings; identity of object ids is erased in their conclusion.")
